@@ -269,6 +269,8 @@ def normalise(tree: ast.Module) -> ast.Module:
 #       nested `for`; comprehension filters joined by `and` are split into separate `if` clauses.
 #   N8b a list comprehension passed directly to frozenset/set/any/all/sum/tuple/sorted/min/max/join is a generator expression.
 #   N9  a search loop `for T in IT: if C: S; break` (S not reading T) becomes `if any(C for T in IT): S`.
+#   N11 `if a or b: <jump>` is split into consecutive ifs; N12 nested ifs without else arms are merged into one `and` test;
+#       `not (a or b)` becomes `not a and not b` (De Morgan).
 #   P1  keyword arguments of calls whose callee has one known signature in the package (function or class by name, method by
 #       attribute name) are turned into positional ones as far as they continue the positional prefix.
 #   P2  helpers the rules do not know by name are looked through: a call to a private (`_name`), small, non-recursive,
@@ -394,7 +396,7 @@ def _n5_function(fn: ast.AST):
                     later = b[i + 1:]
                     inside = {id(x) for st in later for x in ast.walk(st)}
                     loads = [x for x in ast.walk(fn) if isinstance(x, ast.Name) and x.id == v and isinstance(x.ctx, ast.Load)]
-                    if len(loads) < 2 or not all(id(x) in inside for x in loads):
+                    if len(loads) < 1 or not all(id(x) in inside for x in loads):
                         continue
                     # loops containing the definition re-execute it: uses must not be reached from an earlier iteration -> fine,
                     # the definition dominates them in every iteration
@@ -414,7 +416,30 @@ def _n5_function(fn: ast.AST):
                                     base = base.value
                                 if isinstance(base, ast.Name):
                                     heap_roots.add(base.id)
-                    if any(_kills(st, roots - heap_roots, False, v) or _kills(st, heap_roots, True, v) for st in later[:last + 1]):
+                    # what can change the value only matters up to the last use -- or anywhere inside a loop that also holds a use
+                    last_line = max(getattr(x, 'lineno', 0) for x in loads)
+
+                    def _relevant_kill(region: ast.AST) -> bool:
+                        for sub in ast.walk(region):
+                            if not isinstance(sub, ast.stmt):
+                                continue
+                            in_loop_with_use = any(isinstance(l_, (ast.For, ast.While)) and any(id(x) in {id(y) for y in ast.walk(l_)} for x in loads)
+                                                   and any(sub is z for z in ast.walk(l_)) for l_ in ast.walk(region) if isinstance(l_, (ast.For, ast.While)))
+                            if getattr(sub, 'lineno', 0) > last_line and not in_loop_with_use:
+                                continue
+                            # only the statement's own effects (not those of statements nested in it: they are visited themselves)
+                            own = sub
+                            if isinstance(sub, (ast.If, ast.For, ast.While, ast.With, ast.Try)):
+                                hdr = [getattr(sub, 'test', None), getattr(sub, 'iter', None), getattr(sub, 'target', None)] + \
+                                    [it.context_expr for it in getattr(sub, 'items', [])] + [it.optional_vars for it in getattr(sub, 'items', [])]
+                                own = ast.Module(body=[ast.Expr(value=h) for h in hdr if h is not None], type_ignores=[])
+                                if isinstance(sub, (ast.For,)) and sub.target is not None:
+                                    if any(isinstance(x, ast.Name) and x.id in roots for x in ast.walk(sub.target)):
+                                        return True
+                            if _kills(own, roots - heap_roots, False, v) or _kills(own, heap_roots, True, v):
+                                return True
+                        return False
+                    if any(_relevant_kill(st) for st in later[:last + 1]):
                         continue
                     ids = {id(x) for x in loads}
 
@@ -569,6 +594,9 @@ def _n9(tree: ast.AST):
                 b[i] = ast.copy_location(ast.If(test=ast.copy_location(call, st), body=S, orelse=[]), st)
 
 
+_in_test_position: Dict[int, bool] = {}
+
+
 class _NotCmp(ast.NodeTransformer):
     """not (a in b) -> a not in b;  not (a == b) -> a != b;  not (a is b) -> a is not b;  not not x stays (truthiness)."""
     def visit_UnaryOp(self, n):
@@ -577,7 +605,46 @@ class _NotCmp(ast.NodeTransformer):
             new = _simplify_not(n)
             if new is not n:
                 return ast.copy_location(new, n)
+        if isinstance(n.op, ast.Not) and isinstance(n.operand, ast.BoolOp):
+            # De Morgan (truthiness view, which is all a test sees): not (a or b) -> not a and not b
+            b = n.operand
+            op = ast.And() if isinstance(b.op, ast.Or) else ast.Or()
+            vals = [self.visit(ast.copy_location(ast.UnaryOp(op=ast.Not(), operand=v), v)) for v in b.values]
+            return ast.copy_location(ast.BoolOp(op=op, values=vals), n)
+        if isinstance(n.op, ast.Not) and isinstance(n.operand, ast.UnaryOp) and isinstance(n.operand.op, ast.Not) and _in_test_position.get(id(n)):
+            return n.operand.operand
         return n
+
+
+def _n11_n12(tree: ast.AST):
+    """N12  `if a: (if b: S)` without else arms becomes `if a and b: S`.
+       N11  `if a or b: <one jump statement>` without else becomes two consecutive ifs with the same jump."""
+    changed = True
+    while changed:
+        changed = False
+        for node in ast.walk(tree):
+            for field, b in _blocks(node):
+                i = 0
+                while i < len(b):
+                    st = b[i]
+                    if isinstance(st, ast.If) and not st.orelse:
+                        body = [x for x in st.body if not isinstance(x, ast.Pass)]
+                        if len(body) == 1 and isinstance(body[0], ast.If) and not body[0].orelse:
+                            inner = body[0]
+                            vals = (list(st.test.values) if isinstance(st.test, ast.BoolOp) and isinstance(st.test.op, ast.And) else [st.test]) + \
+                                (list(inner.test.values) if isinstance(inner.test, ast.BoolOp) and isinstance(inner.test.op, ast.And) else [inner.test])
+                            st.test = ast.copy_location(ast.BoolOp(op=ast.And(), values=vals), st.test)
+                            st.body = inner.body
+                            changed = True
+                            continue
+                        if len(body) == 1 and isinstance(body[0], (ast.Return, ast.Continue, ast.Break, ast.Raise)) \
+                                and isinstance(st.test, ast.BoolOp) and isinstance(st.test.op, ast.Or):
+                            new = [ast.copy_location(ast.If(test=v, body=[_copy.deepcopy(body[0])], orelse=[]), st) for v in st.test.values]
+                            b[i:i + 1] = new
+                            changed = True
+                            i += len(new)
+                            continue
+                    i += 1
 
 
 def normalise_local_more(tree: ast.AST):
@@ -590,6 +657,7 @@ def normalise_local_more(tree: ast.AST):
     _n7(tree)
     _n8b(tree)
     _NotCmp().visit(tree)
+    _n11_n12(tree)
 
 
 import os as _os
@@ -616,7 +684,8 @@ def known_names() -> Set[str]:
         # written with those helpers as they are; only helpers that appear later are looked through
         try:
             import json as _json
-            names |= set(_json.load(open(_os.path.join(here, 'frozen_names.json'), encoding='utf8')))
+            fz = _json.load(open(_os.path.join(here, 'frozen_names.json'), encoding='utf8'))
+            names |= set(fz['functions']) | set(fz['module_names'])
         except OSError:
             pass
         _KNOWN = names
@@ -705,12 +774,19 @@ def _p1(trees: Dict[str, ast.Module]):
             if ps is None:
                 return None
             sigs.append([p.arg for p in (ps if _is_static(fn) else ps[1:])])
-        for _m, fn in funcs.get(name, []):
-            return None        # a function and a method share the name: ambiguous for attribute calls through modules
         if not sigs or any(x != sigs[0] for x in sigs):
             return None
         return sigs[0]
 
+    imported_modules: Dict[int, Set[str]] = {}
+    for tree in trees.values():
+        mods: Set[str] = set()
+        for n in ast.walk(tree):
+            if isinstance(n, ast.Import):
+                mods |= {(a.asname or a.name).split('.')[0] for a in n.names}
+            elif isinstance(n, ast.ImportFrom):
+                mods |= {(a.asname or a.name) for a in n.names if a.name[:1].islower() and a.name not in funcs and a.name not in classes}
+        imported_modules[id(tree)] = mods
     for tree in trees.values():
         for c in ast.walk(tree):
             if not isinstance(c, ast.Call) or not c.keywords or any(k.arg is None for k in c.keywords) \
@@ -720,6 +796,13 @@ def _p1(trees: Dict[str, ast.Module]):
                 sig = sig_by_name(c.func.id)
             elif isinstance(c.func, ast.Attribute):
                 sig = sig_by_method(c.func.attr)
+                if funcs.get(c.func.attr):
+                    # a module-level function has the same name: use the method signature only when the receiver is an object
+                    # (self / a local), not a module
+                    recv = c.func.value
+                    is_obj = isinstance(recv, ast.Name) and recv.id not in imported_modules.get(id(tree), set())
+                    if not is_obj:
+                        sig = None
                 if sig is None and isinstance(c.func.value, ast.Name) and c.func.attr != '__init__':
                     # Class.method(...) / module.function(...)
                     sig = None
@@ -768,12 +851,19 @@ def _helper_shape(fn: ast.FunctionDef):
     body = [s for s in fn.body if not isinstance(s, ast.Pass)]
     if not body or len(body) > 30:
         return None
+    is_gen = False
     for x in ast.walk(fn):
-        if isinstance(x, (ast.Yield, ast.YieldFrom, ast.Await, ast.Global, ast.Nonlocal)):
+        if isinstance(x, (ast.Yield, ast.YieldFrom)):
+            is_gen = True
+        if isinstance(x, (ast.Await, ast.Global, ast.Nonlocal)):
             return None
         if x is not fn and isinstance(x, (ast.FunctionDef, ast.AsyncFunctionDef, ast.ClassDef, ast.Lambda)):
             return None
     rets = [x for x in ast.walk(fn) if isinstance(x, ast.Return)]
+    if is_gen:
+        # a generator helper is looked through where it is delegated to (`yield from helper(...)`): its statements, yields included,
+        # take the place of the delegation -- only when it never returns early
+        return ('gen', body, None) if not rets else None
     if len(body) == 1 and isinstance(body[0], ast.Return) and body[0].value is not None:
         return ('expr', body[0].value)
     e = _as_expr(body)
@@ -898,6 +988,21 @@ def _p2(trees: Dict[str, ast.Module]) -> int:
                         while i < len(b):
                             st = b[i]
                             call = None
+                            if isinstance(st, ast.Expr) and isinstance(st.value, ast.YieldFrom) and isinstance(st.value.value, ast.Call):
+                                rg = resolve(mname, cls, st.value.value)
+                                shg = _helper_shape(rg[0]) if rg is not None and rg[0] is not fn else None
+                                if shg is not None and shg[0] == 'gen':
+                                    mpg = bind(rg[0], st.value.value, rg[1])
+                                    if mpg is not None:
+                                        storedg = {x.id for s_ in shg[1] for x in ast.walk(s_) if isinstance(x, ast.Name) and isinstance(x.ctx, (ast.Store, ast.Del))}
+                                        if not (storedg & set(mpg)):
+                                            newg = [_Subst(mpg).visit(_copy.deepcopy(s_)) for s_ in shg[1]]
+                                            b[i:i + 1] = newg
+                                            rg[0]._looked_through = True       # type: ignore[attr-defined]
+                                            changed = True
+                                            n_inlined += 1
+                                            i += len(newg)
+                                            continue
                             if isinstance(st, ast.Expr) and isinstance(st.value, ast.Call):
                                 call = st.value
                             elif isinstance(st, (ast.Assign, ast.Return)) and isinstance(st.value, ast.Call):
@@ -943,7 +1048,7 @@ def _p2(trees: Dict[str, ast.Module]) -> int:
                                     continue
                             if r is not None and r[0] is not fn:
                                 shape = _helper_shape(r[0])
-                                mp = bind(r[0], call, r[1]) if shape is not None and shape[0] == 'stmts' else None
+                                mp = bind(r[0], call, r[1]) if shape is not None and shape[0] == 'stmts' else None   # ('gen' helpers: only via yield from)
                                 if mp is not None:
                                     # parameters that the helper rebinds cannot be substituted
                                     stored = {x.id for s_ in shape[1] for x in ast.walk(s_) if isinstance(x, ast.Name) and isinstance(x.ctx, (ast.Store, ast.Del))}
@@ -974,10 +1079,58 @@ def _p2(trees: Dict[str, ast.Module]) -> int:
     return n_inlined
 
 
+def _literal(v: ast.AST) -> bool:
+    if isinstance(v, ast.Constant):
+        return True
+    if isinstance(v, ast.Tuple) and v.elts and all(isinstance(e, ast.Constant) for e in v.elts):
+        return True
+    return False
+
+
+def _p0(trees: Dict[str, ast.Module]):
+    """P0  a module-level constant the rules do not know (a literal bound once to a new name: a refactoring that named a
+    literal) is replaced by its literal wherever the name refers to it."""
+    known = known_names()
+    new_consts: Dict[str, Dict[str, ast.AST]] = {}
+    counts: Dict[str, int] = {}
+    for mname, tree in trees.items():
+        seen: Dict[str, int] = {}
+        for n in ast.walk(tree):
+            if isinstance(n, ast.Name) and isinstance(n.ctx, (ast.Store, ast.Del)):
+                seen[n.id] = seen.get(n.id, 0) + 1
+        for n in tree.body:
+            if isinstance(n, ast.Assign) and len(n.targets) == 1 and isinstance(n.targets[0], ast.Name) and _literal(n.value):
+                nm = n.targets[0].id
+                if nm not in known and seen.get(nm) == 1:
+                    new_consts.setdefault(mname, {})[nm] = n.value
+                    counts[nm] = counts.get(nm, 0) + 1
+    if not new_consts:
+        return
+    for mname, tree in trees.items():
+        mapping: Dict[str, ast.AST] = dict(new_consts.get(mname, {}))
+        for n in ast.walk(tree):
+            if isinstance(n, ast.ImportFrom):
+                for a in n.names:
+                    if counts.get(a.name) == 1 and a.name not in mapping:
+                        for m2, cs in new_consts.items():
+                            if a.name in cs and (n.module or '').split('.')[-1] == m2.split('.')[-1]:
+                                mapping[a.asname or a.name] = cs[a.name]
+        if not mapping:
+            continue
+
+        class Sub(ast.NodeTransformer):
+            def visit_Name(self, n):
+                if isinstance(n.ctx, ast.Load) and n.id in mapping:
+                    return ast.copy_location(_copy.deepcopy(mapping[n.id]), n)
+                return n
+        Sub().visit(tree)
+
+
 def normalise_package(trees: Dict[str, ast.Module]):
     for tree in trees.values():          # parent links would drag the whole module into every deepcopy
         for n in ast.walk(tree):
             n.__dict__.pop('_parent', None)
+    _p0(trees)
     _p1(trees)
     n = _p2(trees)
     if n:
